@@ -86,6 +86,19 @@ class Check:
                                          'rule matched %d instances, fewer than the floor %d (vacuity guard)' % (measured, minimum),
                                          undischarged=True))
 
+    def cover(self, name, have, need):
+        """vacuity guard by entry point: the rule must have examined at least one instance in the
+        execution of every method in `need` (robust against moving code into shared helpers, which
+        changes site counts but not which operations were examined)"""
+        have = set(have)
+        need = set(need)
+        missing = sorted(need - have)
+        self.floors.append((name, len(have & need), len(need)))
+        if missing:
+            self.findings.append(Finding(self.prop, 'FLOOR', 'checker', name,
+                                         'the rule examined no instance while analysing %s (vacuity guard)' % ', '.join(missing),
+                                         undischarged=True))
+
     def assume(self, *names):
         self.assumptions.update(names)
 
